@@ -192,6 +192,25 @@ def run(ctx):
         for d in DIGESTS:
             for kp in ["off", "on-nofile", "on-usable", "on-usable-other-type", "on-corrupt"]:
                 reqs.append(make_req([0, 7], kt=kt, digest=d, kp=kp))
+    # a CA that re-uses authorizations: some or all of them are already valid when the order is created (nothing to solve for them),
+    # the CSR must still name every configured identifier
+    for sel, valid in [([0, 7], ["plain"]), ([0, 2, 8], ["first", "last"]), ([0, 7], ["*"]), ([3, 0, 9], ["middle"])]:
+        q = make_req(sel)
+        idl = q["meta"]["symbols"]
+        vals = [SIGMA[i][3][0] if isinstance(SIGMA[i][3], (list, tuple)) else SIGMA[i][3] for i in idl]
+        st = {}
+        for v in valid:
+            if v == "*":
+                st["*"] = "valid"
+            elif v in ("plain", "first"):
+                st[vals[0]] = "valid"
+            elif v == "last":
+                st[vals[-1]] = "valid"
+            elif v == "middle":
+                st[vals[1]] = "valid"
+        q["cas"] = [dict((q.get("cas") or [{}])[0], authz_status=st)]
+        q["meta"]["reused_authz"] = valid
+        reqs.append(q)
     for a in range(15):
         reqs.append(make_req([0], attrs=[a]))
     reqs.append(make_req([0], attrs=list(range(15))))
